@@ -1,0 +1,106 @@
+//! Verification hooks (compiled only with `--cfg laythe_verif`): a per-instruction probe that
+//! records, per function, every (offset, operand depth, active handlers) the interpreter loop
+//! observed, and a few accessors.
+use super::Vm;
+use std::cell::{Cell, RefCell};
+use std::collections::{BTreeMap, BTreeSet};
+
+pub struct FunObs {
+  pub name: String,
+  pub code: Vec<u8>,
+  pub arity: u8,
+  pub max_slots: usize,
+  /// (offset of the opcode, depth, handlers relative to frame entry unknown -> absolute count, frames)
+  pub points: BTreeSet<(usize, isize, usize)>,
+  pub min_left: isize,
+}
+
+thread_local! {
+  static ENABLED: Cell<bool> = const { Cell::new(false) };
+  static OBS: RefCell<BTreeMap<usize, FunObs>> = const { RefCell::new(BTreeMap::new()) };
+  static STEPS: Cell<u64> = const { Cell::new(0) };
+  static STEP_LIMIT: Cell<u64> = const { Cell::new(0) };
+}
+
+pub fn enable(on: bool) {
+  ENABLED.with(|e| e.set(on));
+  STEPS.with(|s| s.set(0));
+}
+
+/// Abort the run (by panicking with a recognisable message) after this many instructions; 0 = off
+pub fn set_step_limit(limit: u64) {
+  STEP_LIMIT.with(|s| s.set(limit));
+  STEPS.with(|s| s.set(0));
+}
+
+pub fn steps() -> u64 {
+  STEPS.with(|s| s.get())
+}
+
+pub fn take() -> Vec<FunObs> {
+  OBS.with(|o| std::mem::take(&mut *o.borrow_mut()).into_values().collect())
+}
+
+#[inline]
+pub(super) fn probe(vm: &Vm) {
+  let limit = STEP_LIMIT.with(|s| s.get());
+  if limit > 0 {
+    let n = STEPS.with(|s| {
+      s.set(s.get() + 1);
+      s.get()
+    });
+    if n > limit {
+      STEPS.with(|s| s.set(0));
+      panic!("verif step limit exceeded");
+    }
+  }
+  if !ENABLED.with(|e| e.get()) {
+    return;
+  }
+  let fun = vm.current_fun;
+  let code = fun.chunk().instructions();
+  let offset = unsafe { vm.ip.offset_from(code.as_ptr()) } as usize - 1;
+  let (depth, handlers, _frames, left) = vm.fiber.verif_probe();
+  let key = code.as_ptr() as usize;
+  OBS.with(|o| {
+    let mut o = o.borrow_mut();
+    let entry = o.entry(key).or_insert_with(|| FunObs {
+      name: fun.name().to_string(),
+      code: code.to_vec(),
+      arity: fun.parameter_count(),
+      max_slots: fun.max_slots(),
+      points: BTreeSet::new(),
+      min_left: isize::MAX,
+    });
+    entry.points.insert((offset, depth, handlers));
+    if left < entry.min_left {
+      entry.min_left = left;
+    }
+  });
+}
+
+impl Vm {
+  /// verification hook: the allocator's bookkeeping
+  pub fn verif_alloc_stats(&self) -> laythe_core::allocator_verif::Stats {
+    self.gc.borrow().verif_stats()
+  }
+
+  /// verification hook: run a collection now with the vm as root set
+  pub fn verif_collect(&mut self) {
+    let mut gc = self.gc.replace(laythe_core::Allocator::default());
+    gc.collect_garbage(self);
+    self.gc.replace(gc);
+  }
+
+  /// verification hook: sorted intern table contents
+  pub fn verif_intern_keys(&self) -> Vec<String> {
+    self.gc.borrow().verif_intern_keys()
+  }
+}
+
+impl Vm {
+  /// verification hook: move the byte threshold of the next collection
+  pub fn verif_set_next_gc(&mut self, next_gc: usize) {
+    self.gc.borrow_mut().verif_set_next_gc(next_gc);
+  }
+}
